@@ -180,7 +180,7 @@ def build(repo=None):
             if c[:3] in ("C04", "C08", "C09", "C12", "C16"):
                 ob["serves"] = [c[:3]] + (["C12", "C13"] if c[:3] == "C04" else [])
                 if c.startswith("C12:no-label") or c.startswith("C16:"):
-                    ob["serves"] = ["C12", "C16"]  # the '?' label protocol is both a restore obligation and the C16 mechanism
+                    ob["serves"] = ["C12", "C16", "C09"]  # the '?' label protocol: a restore obligation, the C16 mechanism, and what later structured checks (C09) need -- a label left behind makes them raise
                 if c.startswith("C12:flatten"):
                     # 'the type-only mode is on exactly while a tree is flattened' is the invariant the array checks rely on (C01/C02/C03)
                     ob["serves"] = ["C12", "C08", "C01", "C02", "C03", "C17"]
@@ -209,6 +209,8 @@ def build(repo=None):
                         s1.put(args[1], DictObj(o.ksort, o.vsort, tag=o.tag))
                     ok = s1.clone()
                     ok.log.append("_check")
+                    # what the check left behind: the frame's handles and their contents at this moment
+                    ok.ghost["after_check"] = ([r.h for r in ok.ghost["top"]], [ok.get(r) for r in ok.ghost["top"]]) if ok.ghost.get("top") is not None else None
                     outs.append((ok, Z("bool", CheckOut)))
                     s2 = s1.clone()
                     s2.log.append("_check")
@@ -243,6 +245,12 @@ def build(repo=None):
                             continue
                         eng.oblige(s1, "C08:verdict-is-the-result-of-the-leaf-and-structure-check", z3.And(z3.BoolVal(called), o.val.t == CheckOut))
                         eng.oblige(s1, "C04:rejected-tree-implies-view-unchanged", z3.Implies(z3.Not(o.val.t), unchanged))
+                        ac = s1.ghost.get("after_check")
+                        if ac is not None and has_stack:
+                            # nothing is written to the context after an ACCEPTING _check: same frame dicts, same contents (re-installing dicts fetched
+                            # BEFORE the check would bring back what a rolled-back Union member left in them and drop what was bound since)
+                            untouched = s1.ghost["top"] is not None and [r.h for r in s1.ghost["top"]] == ac[0] and all(s1.get(r) is o0 for r, o0 in zip(s1.ghost["top"], ac[1]))
+                            eng.oblige(s1, "C04:accepted-tree-leaves-the-context-exactly-as-the-accepting-check-left-it(no-write-after-_check)", z3.Implies(o.val.t, z3.BoolVal(bool(untouched))))
                     elif o.kind == "raise":
                         eng.oblige(s1, f"C04:raise-implies-view-unchanged[{'Exception' if 'NonExceptionBase' not in s1.ghost.get('exc_classes', {}).get(o.val.id, o.val.classes()) else 'incl. non-Exception BaseException'}]", unchanged)
                         eng.oblige(s1, "C04:only-the-check-raises", z3.BoolVal(o.val.origin == "_check"))
@@ -521,7 +529,7 @@ def build(repo=None):
             collect(st.obl, "_MetaPyTree._check")
 
     # ---- C09: the structure section, as a region (statements between the flatten and the leaf loop), identifier and composite forms
-    ck_struct = [s for s in ck.body if isinstance(s, ast.If) and "structure" in ast.unparse(s.test)]
+    ck_struct = [s for s in ck.body if isinstance(s, ast.If) and ast.unparse(s.test).replace(" ", "") in ("cls.structureisnotNone", "notcls.structureisNone")]
     if len(ck_struct) != 1:
         raise Unsupported("_check: structure section not found")
     region = ck_struct[0]
